@@ -1,6 +1,6 @@
 import Ldap3V.Driver.Util
 import Ldap3V.Spec.Url
-namespace Ldap3V.Driver
+namespace Ldap3V.Driver.UrlD
 open Ldap3V Ldap3V.Url
 
 def kindName : ExtKind → String
@@ -83,4 +83,8 @@ def handleUrl (cmd arg : String) : Option String :=
   | "spec.url.format" => some ((specFormat arg).getD "bad-request")
   | _ => none
 
+end Ldap3V.Driver.UrlD
+
+namespace Ldap3V.Driver
+def handleUrl := UrlD.handleUrl
 end Ldap3V.Driver
